@@ -105,7 +105,7 @@ func (tdsChan *Channel) Login(ctx context.Context, config *LoginConfig) error {
 			return fmt.Errorf("expected Done as second response, received: %v", pkg)
 		}
 
-		if done.Status&TDS_DONE_FINAL != TDS_DONE_FINAL {
+		if done.Status != TDS_DONE_FINAL {
 			return fmt.Errorf("expected DONE(FINAL), received: %s", done)
 		}
 
@@ -374,7 +374,7 @@ func (tdsChan *Channel) Login(ctx context.Context, config *LoginConfig) error {
 		return fmt.Errorf("expected done package, received %T instead: %v", pkg, pkg)
 	}
 
-	if done.Status&TDS_DONE_FINAL != TDS_DONE_FINAL {
+	if done.Status != TDS_DONE_FINAL {
 		return fmt.Errorf("expected done package with status TDS_DONE_FINAL, received %s",
 			done.Status)
 	}
